@@ -878,7 +878,7 @@ func checkC03(c *ctx) {
 			st, m, f string
 		}
 		var bad []one
-		const reps = 12
+		const reps = 40
 		for rep := 0; rep < reps; rep++ {
 			ans, st, msg, fr := p0.askT(cs, 1500*time.Millisecond)
 			res.eval(fmt.Sprint("witness-seekhit", v, rep), true)
@@ -896,7 +896,8 @@ func checkC03(c *ctx) {
 				p0, _ = c03Start()
 			}
 		}
-		if len(bad) >= reps*3/4 {
+		res.note("witness Seek-from-cache with read-ahead, variant %d: %d of %d runs failed", v, len(bad), reps)
+		if len(bad) >= reps/2 {
 			x.judge(cs, bad[0].ans, bad[0].st, bad[0].m, bad[0].f, false)
 		} else {
 			cs.Tag = ""
@@ -911,7 +912,7 @@ func checkC03(c *ctx) {
 	lap("witnesses")
 
 	// ---- random cases, W children
-	nCases := 6000
+	nCases := 4000
 	if c.thorough() {
 		nCases = 60000
 	}
